@@ -679,7 +679,7 @@ def _bytes(x):
     return s
 @model_re(r'^core::str::<impl str>::(is_empty|as_bytes|starts_with|ends_with|contains|is_char_boundary|to_owned|trim|trim_start|trim_end|find|get|as_ptr|to_string|to_lowercase|to_uppercase|eq_ignore_ascii_case|repeat|split_at)$|'
           r'^String::(as_str|as_bytes|push|push_str|clear|truncate|pop|insert|insert_str|capacity|reserve|with_capacity|from_utf8_lossy|from_utf8_unchecked|into_boxed_str|as_mut_str|chars|bytes|remove)$|^<String as From<.*>>::from$|^<str as ToOwned>::to_owned$|^<String as FromStr>::from_str$|'
-          r'^std::str::from_utf8$|^core::str::from_utf8$|^std::string::String::from_utf8_lossy$|^<Cow<\'_, str> as (Deref|ToString|AsRef<str>)>::(deref|to_string|as_ref)$|^Cow::<\'_, str>::(into_owned|to_mut)$|^<String as (AsRef<str>|Borrow<str>|AsRef<\[u8\]>)>::(as_ref|borrow)$')
+          r'^std::str::from_utf8$|^core::str::from_utf8$|^from_utf8$|^str::from_utf8$|^std::string::String::from_utf8_lossy$|^<Cow<\'_, str> as (Deref|ToString|AsRef<str>)>::(deref|to_string|as_ref)$|^Cow::<\'_, str>::(into_owned|to_mut)$|^<String as (AsRef<str>|Borrow<str>|AsRef<\[u8\]>)>::(as_ref|borrow)$')
 def _(M, a, c):
     nm = norm_name(c); fn = nm.split('::')[-1]
     if fn == 'with_capacity': return Native('String', b=[])
@@ -688,7 +688,7 @@ def _(M, a, c):
         if isinstance(x, Int): return Native('String', b=encode_char(M, x))
         return Native('String', b=list(_bytes(x).items()))
     if fn == 'from_str': return ok(Native('String', b=list(_bytes(a[0]).items())))
-    if fn in ('from_utf8_lossy', 'from_utf8') and (nm.startswith('String::from_utf8_lossy') or 'str::from_utf8' in nm or nm.endswith('String::from_utf8_lossy')):
+    if fn in ('from_utf8_lossy', 'from_utf8') and (nm.startswith('String::from_utf8_lossy') or 'str::from_utf8' in nm or nm == 'from_utf8' or nm.endswith('String::from_utf8_lossy')):
         bs = list(_bytes(a[0]).items()) if not (isinstance(a[0], Native) and a[0].kind == 'Vec') else a[0].d['b']
         if any(isinstance(b, Dec) or b.sym() for b in bs):
             if M.branch(mo.utf8_valid_formula(bs)):
@@ -1070,3 +1070,174 @@ def _(M, a, c):
     return some(o) if fn == 'partial_cmp' else o
 def as_str_native(x):
     s = _bytes(x); return Slice(s.b, s.lo, s.hi, True)
+
+# ---- io::Write on stdout / stderr
+@model_re(r'^std::io::(stdout|stderr)$|^(stdout|stderr)$')
+def _(M, a, c): return Native('Stream', which='stdout' if 'stdout' in c else 'stderr')
+@model_re(r'^(std::io::)?(Stdout|Stderr)::lock$|^<(std::io::)?(Stdout|Stderr)(Lock<.*>)? as Write>::(flush|by_ref)$')
+def _(M, a, c):
+    fn = norm_name(c).split('::')[-1]
+    if fn == 'flush': return ok(UNIT)
+    return V(a[0])
+@model_re(r'^<(std::io::)?(Stdout|Stderr|StdoutLock<.*>|StderrLock<.*>|&mut (std::io::)?StdoutLock<.*>) as Write>::(write_all|write_fmt|write|write_str)$|^std::io::Write::(write_all|write_fmt|write)$')
+def _(M, a, c):
+    fn = norm_name(c).split('::')[-1]; st = V(a[0])
+    if not (isinstance(st, Native) and st.kind == 'Stream'): raise Unsupported("Write on %r" % (st,))
+    if fn == 'write_fmt': data = mo.render_args(M, a[1])
+    else:
+        b, lo, hi = _list_of(a[1]); data = list(b[lo:hi])
+    mo.OUT[st.d['which']].append(data)
+    return ok(usize(len(data))) if fn == 'write' else ok(UNIT)
+# ---- map entry API
+@model_re(r'^(BTreeMap|HashMap)::entry$')
+def _(M, a, c): return Native('Entry', map=V(a[0]), key=a[1])
+@model_re(r'^(std::collections::(btree_map|hash_map)::)?Entry::<.*>::(or_insert|or_insert_with|or_default|and_modify|key)$|^Entry::(or_insert|or_insert_with|or_default|and_modify|key)$|^std::collections::(btree_map|hash_map)::Entry::(or_insert|or_insert_with|or_default|and_modify|key)$')
+def _(M, a, c):
+    fn = norm_name(c).split('::')[-1]; e = a[0]; d = e.d['map'].d['m']; k = skey(e.d['key'])
+    if fn == 'key': return Ref([e.d['key']], 0)
+    if fn == 'and_modify':
+        if k in d: callf(M, a[1], [Ref(d[k], 1)])
+        return e
+    if k not in d:
+        if fn == 'or_insert': v = a[1]
+        elif fn == 'or_insert_with': v = callf(M, a[1], [])
+        else:
+            m = re.search(r'Entry::<(.*)>::or_default', c) or re.search(r"Entry<(.*)> *>::or_default", c)
+            tys = [t for t in split_top(m.group(1)) if not t.startswith("'")] if m else []
+            v = default_of(M, tys[-1].strip() if tys else 'Vec<()>')
+        d[k] = [e.d['key'], v]
+    return Ref(d[k], 1)
+@model_re(r'^(std|core|alloc)::str::<impl str>::repeat$')
+def _(M, a, c):
+    if a[1].sym(): raise Unsupported("str::repeat with a symbolic count")
+    items = list(_bytes(a[0]).items()); return Native('String', b=items * a[1].v)
+@model_re(r'^core::str::<impl str>::(find|rfind|split_once|lines|split|char_indices)$')
+def _(M, a, c):
+    fn = norm_name(c).split('::')[-1]; s = _bytes(a[0]); items = s.items(); n = len(items)
+    if fn in ('find', 'rfind'):
+        pat = a[1]; pv = deref_all(pat) if isinstance(pat, Ref) else pat
+        charset = None; pred = None
+        if isinstance(pv, Agg) and pv.ty == 'array' and all(isinstance(x, Int) for x in pv.fields): charset = pv.fields
+        elif isinstance(pv, Slice) and not pv.is_str and all(isinstance(x, Int) and x.w == 32 for x in pv.items()): charset = pv.items()
+        elif isinstance(pv, Agg) and pv.ty.startswith('{closure@'): pred = pv
+        elif isinstance(pv, Native) and pv.kind in ('FnItem', 'ZST'): pred = pv
+        if charset is not None or pred is not None:
+            # character-wise search: first (last) character that is in the set / satisfies the predicate
+            pos = 0; hits = []
+            while pos < n:
+                ch, w = decode_char(M, s, pos)
+                if charset is not None:
+                    r = False
+                    for x in charset: r = bor(r, M.binop('Eq', ch, x))
+                    hit = M.branch(r)
+                else: hit = M.branch(callf(M, pred, [ch]))
+                if hit:
+                    if fn == 'find': return some(usize(pos))
+                    hits.append(pos)
+                pos += w
+            return some(usize(hits[-1])) if hits else NONE()
+        if isinstance(pat, Int): pb = encode_char(M, pat)
+        else:
+            try: pb = list(_bytes(pat).items())
+            except Exception: pb = None
+        if pb is None: raise Unsupported("str::find with this pattern kind")
+        m = len(pb); rng = range(0, n - m + 1) if fn == 'find' else range(n - m, -1, -1)
+        for i in rng:
+            r = True
+            for x, y in zip(items[i:i + m], pb): r = band(r, M.binop('Eq', x, y))
+            if M.branch(r): return some(usize(i))
+        return NONE()
+    if fn == 'char_indices': return Native('CharIndices', s=s, pos=0)
+    raise Unsupported("str::" + fn)
+
+# ---- Unicode predicates on non-ASCII characters: the table is taken from Python's unicodedata as explicit code-point ranges
+import unicodedata as _ud
+_UNI = {}
+def _uni_ranges(pred):
+    if pred in _UNI: return _UNI[pred]
+    f = {'is_numeric': lambda ch: _ud.category(ch) in ('Nd', 'Nl', 'No'), 'is_alphabetic': lambda ch: ch.isalpha() or _ud.category(ch) == 'Nl',
+         'is_alphanumeric': lambda ch: ch.isalpha() or _ud.category(ch) in ('Nd', 'Nl', 'No'), 'is_whitespace': lambda ch: ch.isspace() and ch not in '\x1c\x1d\x1e\x1f',
+         'is_control': lambda ch: _ud.category(ch) == 'Cc', 'is_lowercase': lambda ch: ch.islower(), 'is_uppercase': lambda ch: ch.isupper()}[pred]
+    rs = []; start = None
+    for cp in range(0x80, 0x110000):
+        if 0xD800 <= cp <= 0xDFFF: hit = False
+        else: hit = f(chr(cp))
+        if hit and start is None: start = cp
+        if not hit and start is not None: rs.append((start, cp - 1)); start = None
+    if start is not None: rs.append((start, 0x10FFFF))
+    _UNI[pred] = rs
+    return rs
+@model_re(r'^char::methods::<impl char>::(is_numeric|is_alphabetic|is_alphanumeric|is_whitespace|is_control|is_lowercase|is_uppercase)$')
+def _(M, a, c):
+    fn = norm_name(c).split('::')[-1]; ch = a[0].load() if isinstance(a[0], Ref) else a[0]; z = ch.z()
+    def rng(lo, hi): return z3.And(z3.UGE(z, lo), z3.ULE(z, hi))
+    al = z3.Or(rng(0x41, 0x5a), rng(0x61, 0x7a)); d = rng(0x30, 0x39)
+    ascii_part = {'is_alphabetic': al, 'is_numeric': d, 'is_alphanumeric': z3.Or(al, d), 'is_whitespace': z3.Or(z == 0x20, rng(9, 13)), 'is_control': z3.Or(z3.ULT(z, 0x20), z == 0x7f),
+                  'is_lowercase': rng(0x61, 0x7a), 'is_uppercase': rng(0x41, 0x5a)}[fn]
+    if not ch.sym():
+        if ch.v < 0x80:
+            r = z3.simplify(ascii_part); return z3.is_true(r)
+        return any(lo <= ch.v <= hi for lo, hi in _uni_ranges(fn))
+    if M.branch(z3.ULT(z, 0x80)):
+        r = z3.simplify(ascii_part); return True if z3.is_true(r) else False if z3.is_false(r) else r
+    rs = _uni_ranges(fn)
+    return z3.Or(*[rng(lo, hi) for lo, hi in rs]) if rs else False
+
+# ---- range indexing of Vec / slices / str / String (panicking Index and checked get)
+def _range_bounds(M, r, n):
+    """r: Agg Range* value; returns (lo, hi) python ints or None when out of bounds (forks on symbolic bounds)"""
+    ty = r.ty if isinstance(r, Agg) else ''
+    f = r.fields if isinstance(r, Agg) else []
+    lo, hi = 0, n
+    def cv(x, mx):
+        return concretize(M, x, mx)
+    if ty in ('Range', 'std::ops::Range'):
+        lo = cv(f[0], n); hi = cv(f[1], n) if lo is not None else None
+    elif ty == 'RangeFrom': lo = cv(f[0], n)
+    elif ty == 'RangeTo': hi = cv(f[0], n)
+    elif ty == 'RangeFull' or (isinstance(r, Native) and r.kind == 'ZST'): pass
+    elif ty == 'RangeInclusive':
+        lo = cv(f[0], n); h2 = cv(f[1], n - 1) if (lo is not None and n > 0) else None
+        hi = None if h2 is None else h2 + 1
+    elif ty == 'RangeToInclusive':
+        h2 = cv(f[0], n - 1) if n > 0 else None; hi = None if h2 is None else h2 + 1
+    else: raise Unsupported("range type " + ty)
+    if lo is None or hi is None or lo > hi: return None
+    return lo, hi
+ENUMS.setdefault('RangeFull', ['RangeFull'])
+@model_re(r'^<(Vec<.*>|\[.*\]|str|String) as Index(Mut)?<(std::ops::)?Range(From|To|Full|Inclusive|ToInclusive)?(<usize>)?>>::index(_mut)?$|^core::str::<impl str>::get(_mut)?$|^core::slice::<impl \[.*\]>::get(_mut)?$')
+def _(M, a, c):
+    nm = norm_name(c); checked = nm.split('::')[-1].startswith('get')
+    is_str = nm.startswith(('<str', '<String')) or 'impl str' in nm
+    b, lo0, hi0 = _list_of(a[0]); n = hi0 - lo0
+    idx = a[1]
+    if isinstance(idx, Int):
+        k = concretize(M, idx, n - 1) if n > 0 else None
+        if k is None:
+            if checked: return NONE()
+            raise Panic("index out of bounds: the len is %d" % n)
+        return some(Ref(b, lo0 + k)) if checked else Ref(b, lo0 + k)
+    rb = _range_bounds(M, idx, n)
+    if rb is None:
+        if checked: return NONE()
+        raise Panic("range out of bounds for a sequence of length %d" % n)
+    lo, hi = rb
+    if is_str:
+        for k in (lo, hi):
+            if 0 < k < n:
+                e = b[lo0 + k]
+                if M.branch(z3.And(z3.UGE(e.z(), 0x80), z3.ULE(e.z(), 0xBF))):
+                    if checked: return NONE()
+                    raise Panic("byte index %d is not a char boundary" % k)
+    sl = Slice(b, lo0 + lo, lo0 + hi, is_str)
+    return some(sl) if checked else sl
+@model_re(r'^<.* as (std::io::)?Write>::(write_all|write_fmt|write|flush)$')
+def _(M, a, c):
+    fn = norm_name(c).split('::')[-1]; st = V(a[0])
+    if not (isinstance(st, Native) and st.kind == 'Stream'): raise Unsupported("Write on %r" % (st,))
+    if fn == 'flush': return ok(UNIT)
+    if fn == 'write_fmt': data = mo.render_args(M, a[1])
+    else:
+        b, lo, hi = _list_of(a[1]); data = list(b[lo:hi])
+    mo.OUT[st.d['which']].append(data)
+    return ok(usize(len(data))) if fn == 'write' else ok(UNIT)
